@@ -41,6 +41,6 @@ def run(rep):
     else:
         phases = [{"label": "B:cfggen-depth1", "seeds": gen, "depth": 1, "root_parts": 1, "ops": CFGGEN_OPS},
                   {"label": "A:config-seeds-depth3", "seeds": names, "depth": 3, "root_parts": 8, "ops": CONFIG_OPS,
-                   "max_states_per_level": 4000, "time_budget_s": 2400}]
+                   "max_states_per_level": 300, "time_budget_s": 3000}]
     st = plans.run_plan(rep, "vf.checks.c10", tier, phases)
     fill_evidence(rep, st)
